@@ -217,6 +217,67 @@ func safeExec(p *Prop, line string) (out Out) {
 	}
 }
 
+// retryTimeouts makes the watchdog independent of machine load: a case that hit the watchdog while all workers were
+// busy is run again ALONE; only if it does not return then either is it reported as a timeout. When every timed-out case
+// returned on its own, the cases skipped after the early abort are executed too (at most three such rounds). A genuine
+// hang times out again and costs one more watchdog period per hung case (at most maxTimeouts of them).
+func retryTimeouts(p *Prop, lines []string, outs []Out, workers int) {
+	to := p.Timeout
+	if to == 0 {
+		to = 60 * time.Second
+	}
+	if to > 120*time.Second {
+		return // properties with long-running cases bring their own reproduction logic
+	}
+	for round := 0; round < 3; round++ {
+		still := 0
+		for i := range outs {
+			if outs[i].Go != "timeout" || len(outs[i].Tags) == 0 || outs[i].Tags[0] != "TIMEOUT" {
+				continue
+			}
+			o := safeExec(p, lines[i])
+			if o.Go == "timeout" {
+				still++
+				continue
+			}
+			o.Tags = append(o.Tags, "RETURNED-WHEN-RUN-ALONE-AFTER-WATCHDOG")
+			outs[i] = o
+		}
+		if still > 0 {
+			return
+		}
+		atomic.StoreInt32(&timeouts, 0)
+		var skipped []int
+		for i := range outs {
+			if len(outs[i].Tags) == 1 && outs[i].Tags[0] == "SKIPPED-AFTER-TIMEOUTS" {
+				skipped = append(skipped, i)
+			}
+		}
+		if len(skipped) == 0 {
+			return
+		}
+		var wg sync.WaitGroup
+		idx := make(chan int, 1024)
+		for w := 0; w < workers; w++ {
+			wg.Add(1)
+			go func() {
+				defer wg.Done()
+				for i := range idx {
+					if atomic.LoadInt32(&timeouts) >= maxTimeouts {
+						continue
+					}
+					outs[i] = safeExec(p, lines[i])
+				}
+			}()
+		}
+		for _, i := range skipped {
+			idx <- i
+		}
+		close(idx)
+		wg.Wait()
+	}
+}
+
 // Run generates, executes and writes cases.in / go.out / report.json into dir.
 func Run(p *Prop, tier string, seed uint64, dir string) error {
 	t0 := time.Now()
@@ -275,6 +336,7 @@ func execAndWrite(p *Prop, tier string, seed uint64, dir string, lines []string,
 	}
 	close(idx)
 	wg.Wait()
+	retryTimeouts(p, lines, outs, workers)
 
 	fin, err := os.Create(filepath.Join(dir, "cases.in"))
 	if err != nil {
